@@ -6,7 +6,8 @@ RULE = ("TLC enumerates every formula in Polish notation with <= MaxOps connecti
         "(three atoms plus the documented infix negations `not between` / `not like` or their operator duals) for three atom "
         "tables covering all 13 operator kinds; each formula is rendered with minimal and with full (round/curly) brackets and "
         "run on world W3 (all 8 truth assignments, entries on the comparison boundaries). Judge_Filter evaluates the formula "
-        "with three-valued Boolean semantics (Eval!EvalP). Non-trivial = true of some but not all entries.")
+        "with three-valued Boolean semantics (Eval!EvalP). Non-trivial = true of some but not all entries. "
+        "The formulas with <= 2 connectives are also run over pseudo-random trees (WorldRnd; quick: 3000 sampled over 3 trees, thorough: all over 10 trees).")
 ASSUMPTIONS = ["rows are identified by './'+relative path"]
 
 
